@@ -48,6 +48,8 @@ type Parser struct {
 	// by ST. This will have the effect of ignore an ST so we don't see
 	// ambiguous "Alt+\" when parsing input
 	ignoreST bool
+	// stESC is the value of gen at the last ESC seen while ignoreST was on
+	stESC int
 
 	// escTimeout is a timeout for interpretting an Esc keypress vs an
 	// escape sequence
@@ -496,6 +498,14 @@ func anywhere(r rune, p *Parser) stateFn {
 			p.exit = nil
 		}
 		p.clear()
+		if p.ignoreST {
+			// only the ESC that leaves a string can begin its ST: one
+			// more ESC right after it begins something else
+			if p.stESC == p.gen-1 {
+				p.ignoreST = false
+			}
+			p.stESC = p.gen
+		}
 		gen := p.gen
 		p.escTimeout = time.AfterFunc(10*time.Millisecond, func() {
 			p.mu.Lock()
